@@ -925,6 +925,9 @@ class BaseModel(ModelInterface):
             if ix is not None:
                 # we need to explicitly pass `on` to preserve order of index levels
                 # and to explicitly pass columns to preserve 2D columns when they are
+                # repeated (ID, TIME) requests share one estimate: keep it once, so that the join
+                # below returns exactly one row per requested row (and not one per pair of duplicates)
+                estimations = estimations[~estimations.index.duplicated()]
                 empty_df_like_ests = pd.DataFrame(
                     [], index=ix, columns=estimations.columns
                 )
